@@ -1,8 +1,8 @@
 """Behavioural (semantic) rules for the claim-checking half of the parsers, decided by abstract interpretation.
 
 verify_claims is interpreted on a *concrete parser configuration* and a symbolic payload:
-    expected claims   {"a": E_a, "c": E_c}
-    validators        {"c": V_c, "b": V_b}            (V_c shadows the expectation for "c"; V_b has no expectation)
+    expected claims   {"aud": E_aud, "exp": E_exp}
+    validators        {"exp": V_exp, "nbf": V_nbf}    (V_exp shadows the expectation for "exp"; V_nbf has no expectation)
     payload           json(token), every member json[k] ranging over the JSON classes, equal / unequal to the expectation
 and the resulting path outcomes are compared with the behaviour the properties state.  How the function is written - for loops,
 iterator chains, helper functions, `match` or `?` - does not matter: only the validator calls (events), their arguments and the
@@ -111,8 +111,9 @@ def interp(facts, stubs=()):
 
 
 # ------------------------------------------------------------------ verify_claims
-EXPECT = ["a", "c"]
-VALID = ["c", "b"]
+EXPECT = ["aud", "exp"]
+VALID = ["exp", "nbf"]
+KA, KC = "aud", "exp"      # KA: expected without validator; KC: expected and validator
 
 
 def parser_value(st):
@@ -187,10 +188,10 @@ def verify_claims_table(facts):
                 if e[2] != k or e[3] != jn(k):
                     probs["C16.R2"].append("validator %s is called with (%r, %s) instead of (%r, &json[%r])" % (name, e[2], e[3], k, k))
         failed = [c[:-6] for c in s.cond if c.endswith(" fails") and c.startswith("V_")]
-        cls_a = s.facts.get(("cls", jn("a")))
+        cls_a = s.facts.get(("cls", jn(KA)))
         a_null = cls_a is not None and cls_a <= frozenset(["Null"])
         a_nonnull = cls_a is not None and "Null" not in cls_a
-        eq_a = s.facts.get(("jsoneq",) + tuple(sorted(("expected(a)[a]", jn("a")))))
+        eq_a = s.facts.get(("jsoneq",) + tuple(sorted(("expected(%s)[%s]" % (KA, KA), jn(KA)))))
         if is_ok:
             n_ok += 1
             okv = MD.deref(I, s, r.fields.get("0"))
@@ -202,9 +203,9 @@ def verify_claims_table(facts):
             if failed:
                 probs["C16.R3"].append("the parse succeeds although %s returned an error" % failed)
             if not a_nonnull:
-                probs["C15.R2"].append("the parse succeeds although the expected claim 'a' may be absent (null) when [%s]" % cond[-200:])
+                probs["C15.R2"].append("the parse succeeds although the expected claim 'aud' may be absent (null) when [%s]" % cond[-200:])
             if eq_a is not True:
-                probs["C15.R2"].append("the parse succeeds without the payload's 'a' having been found JSON-equal to the expectation when [%s]" % cond[-200:])
+                probs["C15.R2"].append("the parse succeeds without the payload's 'aud' having been found JSON-equal to the expectation when [%s]" % cond[-200:])
         else:
             var, ev = _err_variant(I, o, r)
             cause = None
@@ -221,7 +222,7 @@ def verify_claims_table(facts):
             if cause is None:
                 # which key is blamed?
                 blame = ""
-                if any(("cls", jn(k)) in s.facts for k in ("c", "b")) or any(isinstance(kf, tuple) and kf[0] == "jsoneq" and "(c)" in str(kf) for kf in s.facts):
+                if any(("cls", jn(k)) in s.facts for k in VALID) or any(isinstance(kf, tuple) and kf[0] == "jsoneq" and "(%s)" % KC in str(kf) for kf in s.facts):
                     blame = " (a claim that has a validator is also subjected to a presence / equality test)"
                     probs["C16.R6"].append("the parse fails with %s for a reason other than a validator's verdict%s when [%s]" % (var, blame, cond[-200:]))
                 else:
@@ -231,7 +232,7 @@ def verify_claims_table(facts):
     # a claim with validator must not be tested otherwise: no path may have refined json[c] / json[b] by a null or equality test
     for o in outs:
         s = o.state
-        for k in ("c", "b"):
+        for k in VALID:
             if ("cls", jn(k)) in s.facts or any(isinstance(kf, tuple) and kf[0] == "jsoneq" and jn(k) in kf for kf in s.facts):
                 probs["C16.R6"].append("the payload's %r, which has a validator, is also tested for presence / equality when [%s]" % (k, " & ".join(s.cond)[-160:]))
                 break
